@@ -185,11 +185,16 @@ def sx_state(st):
 # ---------------------------------------------------------------- main
 
 def build_cases(tier):
+    """quick: programs 0..24 at level 0, every third one also at level 2 (34 sessions);
+    thorough: programs 0..79 at levels 0 and 2 (160 sessions).  quick is a subset of thorough.
+    The order interleaves the recursion depths so that the worker chunks are balanced."""
     n = 25 if tier == 'quick' else 80
     cases = []
-    for k in range(n):
+    for k in sorted(range(n), key=lambda k: (k % 5, k // 5)):
         p = c13gen.program(k)
         for lv in LEVELS:
+            if tier == 'quick' and lv != 0 and k % 3 != 0:
+                continue
             cases.append({'k': k, 'level': lv, 'src': p['src'],
                           'stops': {str(a): b for a, b in p['stops'].items()},
                           'halted': p['halted'], 'meta': p['meta'], 'trap_end': p['trap_end'],
@@ -335,8 +340,8 @@ def main(tier, seed):
             for m in ms:
                 keys.add((c['level'], m['tag']))
     ctx.rule.append(
-        f'{len(cases) // len(LEVELS)} generated programs (tools/props/c13gen.py: declaration shapes by mixed radix over DEFtype '
-        f'variant x array bounds x recursion depth x name collisions x ending; values seeded by the program index) x levels {LEVELS} '
+        f'{len(set(c["k"] for c in cases))} generated programs / {len(cases)} debugger sessions (tools/props/c13gen.py: declaration shapes by mixed radix over DEFtype '
+        f'variant x array bounds x recursion depth x name collisions x ending; values seeded by the program index), levels {LEVELS} '
         f'with debug info; every probe expression is PRINTed by the program on its own line; the debugger is stopped there '
         f'(break + continue), asked the expression before the PRINT runs, the complete machine state compared before/after; '
         f'reference = the typed cell the program hands to PRINT; non-trivial = distinct (level, probe description)')
